@@ -11,6 +11,7 @@ import Vita.C11.FloatLex
 import Vita.C11.FloatSpot
 import Vita.C11.FormatPairs
 import Vita.C11.GenFormats
+import Vita.C11.FormatLemmas
 /-!
   C11 — save followed by load reproduces the object (property theorems).
 
@@ -280,6 +281,21 @@ example : Fmt.agrees [⟨"s", .seq (.fld .u64 "a" "") (.seq (.sep 32) (.fld .u64
     ⟨"l", .seq (.fld .u64 "b" "") (.fld .u64 "a" "")⟩] [] "s" "l" = false := by decide
 example : Fmt.separated [⟨"s", .seq (.fld .u32 "a" "") (.seq (.fld .u32 "b" "") (.sep 10))⟩] "s" = false := by decide
 example : Fmt.separated [⟨"s", .seq (.fld .u32 "a" "") (.seq (.sep 32) (.fld .u32 "b" ""))⟩] "s" = false := by decide
+
+/-- what the two checks mean, proved for the flat fragment (records that are sequences of integer fields and
+    separators: `hash_t`, the headers of `matrix` / `cache` / `population`, the trailer of `summary`): if every
+    value fits the type it is written with, every load type holds the save type at the same position and every
+    field is followed by a white-space separator, then reading the load types off the text written — followed by
+    anything — gives back exactly the values and stops right after the last field -/
+theorem flat_format_roundtrip (items : List Flat.Item) (ltys : List Flat.FTy) (vs : List Int) (r : Str)
+    (hsep : Flat.Separated items) (hfit : Flat.Fits (Flat.fields items) vs)
+    (hh : Flat.Holds (Flat.fields items) ltys) :
+    Flat.readAll ltys (Flat.write items vs ++ r) = some (vs, Flat.trail items ++ r) :=
+  Flat.flat_roundtrip items ltys vs r hsep hfit hh
+
+example : Flat.Separated [.fld (.u U64), .sep ' ', .fld (.u U64), .sep '\n'] ∧
+    Flat.Holds [.u U32, .i I32] [.u U64, .i I64] := by
+  refine ⟨⟨by decide, by decide, trivial⟩, ?_, ?_, trivial⟩ <;> simp [Flat.FTy.holds, U32, U64, I32, I64]
 
 /-! ### team<T>, population<T>, summary<T> for every member type `T` with the block property
     (`i_ga`, `i_de`, `i_mep`, and `team<T>` again: `population<i_ga>`, `summary<i_de>`, `team<i_ga>`,
